@@ -251,6 +251,38 @@ func ruleEncoderContract(r *core.Run, p *core.Prog, rel string) {
 			r.Check(rule, short+".Compress:reslice-under-capacity-guard", where, badGuard == "", badGuard)
 		}
 		r.Check(rule, short+".Compress:no-address-of-empty-slice", where, badAddr == "", badAddr)
+		// liblz4 (unlike libzstd, which documents NULL as valid for empty input) dereferences the source
+		// pointer at high levels even for empty input: the pointer variable filled from &data[0] under
+		// the len(data) > 0 guard must start out non-nil (finding F26)
+		if short == "lz4" {
+			core.Walk(f.Decl.Body, false, func(x ast.Node) bool {
+				a, ok := x.(*ast.AssignStmt)
+				if !ok || len(a.Lhs) != 1 || a.Tok != token.ASSIGN {
+					return true
+				}
+				if !strings.Contains(core.Str(a.Rhs[0]), "&"+pData.Name()+"[0]") {
+					return true
+				}
+				o := core.ObjOf(info, a.Lhs[0])
+				initialised := false
+				core.Walk(f.Decl.Body, false, func(y ast.Node) bool {
+					if d, ok := y.(*ast.AssignStmt); ok && d.Tok == token.DEFINE && len(d.Lhs) == 1 && core.ObjOf(info, d.Lhs[0]) == o && !core.IsNil(info, d.Rhs[0]) {
+						initialised = true
+					}
+					if vs, ok := y.(*ast.ValueSpec); ok {
+						for i, nm := range vs.Names {
+							if info.Defs[nm] == o && i < len(vs.Values) && !core.IsNil(info, vs.Values[i]) {
+								initialised = true
+							}
+						}
+					}
+					return true
+				})
+				r.Check(rule, short+".Compress:source-pointer-never-nil", p.Rel(a.Pos()), initialised,
+					"for empty input the source pointer handed to LZ4_compress_HC stays nil; at compression levels >= 10 the library dereferences it (SIGSEGV)")
+				return true
+			})
+		}
 		// the size the scratch buffer is resliced to must be the codec's own worst-case bound
 		core.Walk(f.Decl.Body, false, func(x ast.Node) bool {
 			a, ok := x.(*ast.AssignStmt)
